@@ -27,27 +27,47 @@ type c05Net struct {
 	Connections    int
 	KeepAlive      bool
 	HTTP2          bool
+	// Hops > 0: the server answers with that many redirects (each after the service time) before the final response;
+	// the attacker follows them (Redirects option, as the command line always sets it)
+	Hops      int `json:",omitempty"`
+	Redirects int `json:",omitempty"`
 }
 
 func runC05Net(c c05Net) error {
 	var mu sync.Mutex
 	finish := map[uint64]time.Time{}
 	arrive := map[uint64]time.Time{}
+	served := map[uint64]time.Duration{} // time the server demonstrably spent on the hit, all hops together
 	srv := httptest.NewServer(http.HandlerFunc(func(w http.ResponseWriter, r *http.Request) {
 		seq, _ := strconv.ParseUint(r.Header.Get("X-Vegeta-Seq"), 10, 64)
 		a := time.Now()
 		time.Sleep(time.Duration(c.ServiceMS) * time.Millisecond)
+		var hop int
+		if _, err := fmt.Sscanf(r.URL.Path, "/hop/%d", &hop); err == nil && hop > 0 {
+			mu.Lock()
+			if _, seen := arrive[seq]; !seen {
+				arrive[seq] = a
+			}
+			served[seq] += time.Since(a)
+			mu.Unlock()
+			http.Redirect(w, r, fmt.Sprintf("/hop/%d", hop-1), http.StatusFound)
+			return
+		}
 		w.Write([]byte("ok"))
 		mu.Lock()
-		arrive[seq], finish[seq] = a, time.Now()
+		if _, seen := arrive[seq]; !seen {
+			arrive[seq] = a
+		}
+		finish[seq] = time.Now()
+		served[seq] += finish[seq].Sub(a)
 		mu.Unlock()
 	}))
 	defer srv.Close()
 	atk := vegeta.NewAttacker(vegeta.Workers(uint64(c.Workers)), vegeta.MaxWorkers(uint64(c.Workers)), vegeta.MaxConnections(c.MaxConnections),
-		vegeta.Connections(c.Connections), vegeta.KeepAlive(c.KeepAlive), vegeta.HTTP2(c.HTTP2), vegeta.Timeout(20*time.Second))
+		vegeta.Connections(c.Connections), vegeta.KeepAlive(c.KeepAlive), vegeta.HTTP2(c.HTTP2), vegeta.Timeout(20*time.Second), vegeta.Redirects(c.Redirects))
 	before := time.Now()
 	var results []*vegeta.Result
-	for r := range atk.Attack(vegeta.NewStaticTargeter(vegeta.Target{Method: "GET", URL: srv.URL + "/"}), stopAfterPacer{uint64(c.Hits)}, 0, "c05net") {
+	for r := range atk.Attack(vegeta.NewStaticTargeter(vegeta.Target{Method: "GET", URL: srv.URL + fmt.Sprintf("/hop/%d", c.Hops)}), stopAfterPacer{uint64(c.Hits)}, 0, "c05net") {
 		results = append(results, r)
 	}
 	what := fmt.Sprintf("%+v", c)
@@ -60,6 +80,7 @@ func runC05Net(c c05Net) error {
 		}
 		mu.Lock()
 		a, f, ok := arrive[r.Seq], finish[r.Seq], true
+		took := served[r.Seq]
 		if _, seen := finish[r.Seq]; !seen {
 			ok = false
 		}
@@ -70,8 +91,8 @@ func runC05Net(c c05Net) error {
 		if r.Timestamp.Before(before) || r.Timestamp.After(a) {
 			return fmt.Errorf("%s: seq %d timestamp is not between the attack's start and the request's arrival at the server", what, r.Seq)
 		}
-		if took := f.Sub(a); r.Latency < took {
-			return fmt.Errorf("%s: seq %d has latency %s, but the server alone took %s", what, r.Seq, r.Latency, took)
+		if r.Latency < took {
+			return fmt.Errorf("%s: seq %d has latency %s, but the server alone spent %s on it (%d redirects followed)", what, r.Seq, r.Latency, took, c.Hops)
 		}
 		if r.End().Before(f) {
 			return fmt.Errorf("%s: seq %d ends (timestamp+latency) %s before the server finished answering it", what, r.Seq, f.Sub(r.End()))
@@ -88,7 +109,11 @@ func TestC05RealTransport(t *testing.T) {
 	vh.Check(t, 4, 60, func(t *rapid.T) {
 		c := c05Net{Workers: rapid.IntRange(1, 8).Draw(t, "workers"), Hits: rapid.IntRange(4, 24).Draw(t, "hits"), ServiceMS: rapid.SampledFrom([]int{0, 5, 20, 40}).Draw(t, "service"),
 			MaxConnections: rapid.SampledFrom([]int{0, 1, 2, 4}).Draw(t, "maxconns"), Connections: rapid.SampledFrom([]int{1, 2, 10000}).Draw(t, "conns"),
-			KeepAlive: rapid.Bool().Draw(t, "keepalive"), HTTP2: rapid.Bool().Draw(t, "http2")}
+			KeepAlive: rapid.Bool().Draw(t, "keepalive"), HTTP2: rapid.Bool().Draw(t, "http2"), Redirects: 10}
+		if rapid.Bool().Draw(t, "redirected") {
+			c.Hops = rapid.IntRange(1, 3).Draw(t, "hops")
+			c.Redirects = rapid.SampledFrom([]int{3, 10}).Draw(t, "redirects")
+		}
 		queued := c.MaxConnections > 0 && c.Workers > c.MaxConnections && c.ServiceMS > 0
 		vh.Case("C05.realtransport", fmt.Sprintf("%+v", c), queued, fmt.Sprintf("connection-queueing:%v", queued))
 		vh.Sample("C05.realtransport", queued, c)
